@@ -2,9 +2,14 @@
 # Development-time regression: applies every seeded change in turn (mutant_test.sh), runs the check that
 # is expected to catch it (quick tier) and prints one line per change. C03-m2 is run against C05.
 cd "$(dirname "$0")/.."
+# usage: tools/seed_sweep.sh [name-prefix ...]   (default: all)
+sel="$*"
 for d in seeded/*/; do
   n=$(basename "$d"); id=${n%%-*}
+  if [ -n "$sel" ]; then ok=0; for p in $sel; do case "$n" in $p*) ok=1;; esac; done; [ $ok = 1 ] || continue; fi
   [ "$n" = "C03-m2" ] && id=C05
+  [ "$n" = "C03-m4" ] && id=C05
+  [ "$n" = "C15-m4" ] && id=C20
   out=$(./mutant_test.sh "$(pwd)/$d/patch.diff" "$id" quick 2>&1)
   rc=$(echo "$out" | grep -o "check exit=[0-9]*" | tail -1)
   tests=$(echo "$out" | grep -o "repo tests: [A-Z]*" | tail -1)
